@@ -706,6 +706,9 @@ pub fn partial_liquidation_reply(
             .checked_sub(swap.open_notional)?,
     };
 
+    // the position was updated in this block (restriction mode looks at this stamp)
+    position.block_number = env.block.height;
+
     let mut messages: Vec<SubMsg> = vec![];
 
     if !liquidation_fee.is_zero() {
